@@ -354,58 +354,86 @@ struct Case {
     errs: Vec<String>,
     pairs: u64,
     handshakes: u64,
+    reconnect_scenarios: u64,
     crossproc: u64,
 }
 
 fn handshake(case: &mut Case, server_seq: &[usize], client_seq: &[usize]) {
-    case.handshakes += 1;
-    let mut server = build(server_seq, AuthMethod::ProtocolCheck);
+    // half of the single handshakes go through a Connecting phase (decided by the pair itself)
+    let via = (server_seq.len() + client_seq.iter().sum::<usize>()) % 2 == 0;
+    sessions(case, client_seq, &[server_seq], via);
+}
+
+/// One client app, one session after the other against freshly built servers: every handshake is
+/// judged on its own (a transport with an asynchronous handshake reports `Connecting` first).
+fn sessions(case: &mut Case, client_seq: &[usize], server_seqs: &[&[usize]], via_connecting: bool) {
     let mut client = build(client_seq, AuthMethod::ProtocolCheck);
-    let same = format!("{:?}", server.world().resource::<ProtocolHash>()) == format!("{:?}", client.world().resource::<ProtocolHash>());
-    server.world_mut().resource_mut::<RepliconServer>().set_running(true);
-    let ce = server.world_mut().spawn(ConnectedClient { max_size: 1200 }).id();
-    client.world_mut().resource_mut::<RepliconClient>().set_status(RepliconClientStatus::Connected);
-    for _ in 0..4 {
+    for (si, server_seq) in server_seqs.iter().enumerate() {
+        case.handshakes += 1;
+        let mut server = build(server_seq, AuthMethod::ProtocolCheck);
+        let same = format!("{:?}", server.world().resource::<ProtocolHash>()) == format!("{:?}", client.world().resource::<ProtocolHash>());
+        server.world_mut().resource_mut::<RepliconServer>().set_running(true);
+        let ce = server.world_mut().spawn(ConnectedClient { max_size: 1200 }).id();
+        let notified_before = client.world().resource::<Hs>().mismatch;
+        if via_connecting {
+            client.world_mut().resource_mut::<RepliconClient>().set_status(RepliconClientStatus::Connecting);
+            client.update();
+            if si % 2 == 1 {
+                client.update();
+            }
+        }
+        client.world_mut().resource_mut::<RepliconClient>().set_status(RepliconClientStatus::Connected);
+        for _ in 0..4 {
+            client.update();
+            let out: Vec<_> = client.world_mut().resource_mut::<RepliconClient>().drain_sent().collect();
+            for (ch, m) in out {
+                server.world_mut().resource_mut::<RepliconServer>().insert_received(ce, ch, m);
+            }
+            server.update();
+            let out: Vec<_> = server.world_mut().resource_mut::<RepliconServer>().drain_sent().collect();
+            for (_, ch, m) in out {
+                client.world_mut().resource_mut::<RepliconClient>().insert_received(ch, m);
+            }
+        }
         client.update();
-        let out: Vec<_> = client.world_mut().resource_mut::<RepliconClient>().drain_sent().collect();
-        for (ch, m) in out {
-            server.world_mut().resource_mut::<RepliconServer>().insert_received(ce, ch, m);
+        let authorized = server.world().entity(ce).contains::<AuthorizedClient>();
+        let requests = server.world().resource::<Hs>().requests.clone();
+        let notified = client.world().resource::<Hs>().mismatch - notified_before;
+        let ctx = format!(
+            "session {} of the client app{}, server {:?} / client {:?}",
+            si + 1,
+            if via_connecting { ", connected through a Connecting phase" } else { "" },
+            names(server_seq),
+            names(client_seq)
+        );
+        if same {
+            if !authorized {
+                case.errs.push(format!("equal hashes but the client was not authorized ({ctx})"));
+            }
+            if !requests.is_empty() || notified != 0 {
+                case.errs.push(format!("equal hashes but mismatch handling ran: requests {requests:?}, notifications {notified} ({ctx})"));
+            }
+        } else {
+            if authorized {
+                case.errs.push(format!("different hashes but the client was authorized ({ctx})"));
+            }
+            if requests != vec![ce] {
+                case.errs.push(format!("different hashes: expected one DisconnectRequest for {ce}, got {requests:?} ({ctx})"));
+            }
+            if notified != 1 {
+                case.errs.push(format!("different hashes: client was notified {notified} times ({ctx})"));
+            }
         }
-        server.update();
-        let out: Vec<_> = server.world_mut().resource_mut::<RepliconServer>().drain_sent().collect();
-        for (_, ch, m) in out {
-            client.world_mut().resource_mut::<RepliconClient>().insert_received(ch, m);
-        }
-    }
-    client.update();
-    let authorized = server.world().entity(ce).contains::<AuthorizedClient>();
-    let requests = server.world().resource::<Hs>().requests.clone();
-    let notified = client.world().resource::<Hs>().mismatch;
-    let ctx = format!("server {:?} / client {:?}", names(server_seq), names(client_seq));
-    if same {
-        if !authorized {
-            case.errs.push(format!("equal hashes but the client was not authorized ({ctx})"));
-        }
-        if !requests.is_empty() || notified != 0 {
-            case.errs.push(format!("equal hashes but mismatch handling ran: requests {requests:?}, notifications {notified} ({ctx})"));
-        }
-    } else {
-        if authorized {
-            case.errs.push(format!("different hashes but the client was authorized ({ctx})"));
-        }
-        if requests != vec![ce] {
-            case.errs.push(format!("different hashes: expected one DisconnectRequest for {ce}, got {requests:?} ({ctx})"));
-        }
-        if notified != 1 {
-            case.errs.push(format!("different hashes: client was notified {notified} times ({ctx})"));
-        }
+        // the session ends
+        client.world_mut().resource_mut::<RepliconClient>().set_status(RepliconClientStatus::Disconnected);
+        client.update();
     }
 }
 
 fn run_case(seed: u64, exe: Option<&str>) -> Case {
     let mut r = Rng::new(seed);
     let seq = gen_seq(&mut r);
-    let mut case = Case { seq: seq.clone(), errs: vec![], pairs: 0, handshakes: 0, crossproc: 0 };
+    let mut case = Case { seq: seq.clone(), errs: vec![], pairs: 0, handshakes: 0, reconnect_scenarios: 0, crossproc: 0 };
     let res = catch_unwind(AssertUnwindSafe(|| {
         let h0 = hash_of(&seq);
         // determinism within the process
@@ -459,6 +487,12 @@ fn run_case(seed: u64, exe: Option<&str>) -> Case {
                 handshake(&mut case, s, &seq);
             }
         }
+        // the same client app over three sessions: compatible server, an edited one, compatible again
+        if !all.is_empty() {
+            let (_, s) = &all[r.below(all.len())];
+            sessions(&mut case, &seq, &[&seq, s, &seq], r.below(2) == 0);
+            case.reconnect_scenarios += 1;
+        }
         // an independent random pair
         let other = gen_seq(&mut r);
         let ho = hash_of(&other);
@@ -501,6 +535,7 @@ fn main() {
         res.runs += 1;
         res.obs.add("hash_comparisons", c.pairs);
         res.obs.add("handshakes", c.handshakes);
+        res.obs.add("three_session_reconnect_scenarios", c.reconnect_scenarios);
         res.obs.add("cross_process_comparisons", c.crossproc);
         if !c.seq.is_empty() {
             let h = fnv64(format!("{:?}", c.seq).as_bytes());
@@ -518,6 +553,6 @@ fn main() {
     }
     let mut j = res.to_json();
     j["harness_errors"] = json!([]);
-    j["rule"] = json!("one case = one seed-determined registration sequence (0..8 distinct actions out of 25: single / once / periodic / bundle / tuple / custom-priority rules, client+server events and triggers incl. one type in two roles, independence marks) together with ALL its single-step edits (neighbour swaps, deletions, insertions and replacements by every other action); hash equality must coincide with sequence equality; every 8th case re-computes the hash in a second process; two ProtocolCheck handshakes per case (equal pair, edited pair); non-trivial = non-empty sequence; distinct = distinct sequence");
+    j["rule"] = json!("one case = one seed-determined registration sequence (0..8 distinct actions out of 25: single / once / periodic / bundle / tuple / custom-priority rules, client+server events and triggers incl. one type in two roles, independence marks) together with ALL its single-step edits (neighbour swaps, deletions, insertions and replacements by every other action); hash equality must coincide with sequence equality; every 8th case re-computes the hash in a second process; two ProtocolCheck handshakes per case (equal pair, edited pair); non-trivial = non-empty sequence; distinct = distinct sequence; the handshakes are played by one client app per scenario - single sessions (half of them through a Connecting phase) and a three-session scenario compatible / edited / compatible server, each session judged on its own");
     write_json(&out, &j);
 }
